@@ -205,11 +205,6 @@ func (u *Upstream) waitToSendAllDataPointsAndReceiveAllAck(ctx context.Context) 
 		return errors.Errorf("failed to flush chunk: %w", err)
 	}
 
-	alreadyReceivedLastSentAck := atomic.LoadUint32(&u.maxSequenceNumberInReceivedUpstreamChunkResults) == u.sequence.CurrentValue()
-	if alreadyReceivedLastSentAck {
-		return nil
-	}
-
 	u.receivedAck.L.Lock()
 	var err error
 	var remaining map[uint32]DataPointGroups
